@@ -33,6 +33,13 @@ chk("C16", "exhaustive enumeration of (reflect.StructOf target type, document) p
     "Programs x inputs: all struct types of <=2/3 fields over a 15-field alphabet x 4 inline kinds, built at run time with reflect.StructOf; for each, every document over its keys/aliases/unknown/empty-string keys with per-key state absent/null/values, two key orders, sentinel-prefilled and zero destinations; result compared with the partition rule and (alias-free, well-typed) with yaml.v3's Node.Decode into the same type.",
     "Append/merge-into-existing semantics excluded by pre-filling nil; nulls on non-nillable fields excluded from the yaml.v3 differential.", "DESIGN.md §3 C16")
 
+chk("C03", "stateless choice-DFS (deviation-bounded) over a pipeline-document grammar on the real parser/marshallers vs. reference normal form",
+    "Documents are programs of choices over the pipeline grammar; the explorer enumerates every choice sequence that is fully open in the focus areas (alias/primary key subsets, command forms, presentation) and within d deviations elsewhere; each document is rendered (JSON / YAML block / flow / quoted), self-checked with yaml.v3, parsed, marshalled to JSON and YAML, read back order-preservingly and matched against the expected normal form (per-shorthand rewrite table, identity elsewhere). Exhaustive within the stated deviation bound.",
+    "Grammar alternatives and deviation bound are finite; conservative readings listed in DESIGN §8.", "DESIGN.md §3 C03")
+chk("C09", "stateless choice-DFS over documents + exhaustive string alphabet at every string position + map-iteration seam, differential oracle (no expected values)",
+    "For every generated document and for every string of the alphabet (all strings of <=2/3 runes over 41 characters + 130 look-alikes) at every string position of three base documents: p, Parse(json(p)) and Parse(yaml(p)) must agree in step kinds, canonical memory dump and marshalled bytes; stand-alone CommandStep/Plugins JSON decoders round-trip; marshalling is byte-identical under every explored order of the marshaller's map loops.",
+    "YAML leg excludes multi-line strings starting with (Unicode) whitespace and the key '<<' (emitter limits); plugin source positions excluded (C17's domain).", "DESIGN.md §3 C09")
+
 ALL = [f"C{i:02d}" for i in range(1,20)]
 NA_REASON = {}
 man = dict(version=1, setup_cmd="./setup.sh",
